@@ -246,8 +246,46 @@ spec fn state_token(s: State) -> Option<Option<Token>> {
 
 impl Connection {
     spec fn wf(&self) -> bool { match self.state { State::Online(o) => o.wf(), _ => true } }
+    // C02: while mid-handshake or online the send timer is armed (so needs_tick reports a finite deadline)
+    spec fn timer_ok(&self) -> bool {
+        (self.state is Connecting || self.state is Pending || self.state is Online) ==> self.send.is_active_spec()
+    }
+}
+spec fn same_kind(a: State, b: State) -> bool {
+    (a is Unconnected <==> b is Unconnected) && (a is Connecting <==> b is Connecting) && (a is Pending <==> b is Pending)
+        && (a is Online <==> b is Online) && (a is Disconnected <==> b is Disconnected)
+}
+// everything but the pending packet / request_resend flag is unchanged (what a flush may touch)
+spec fn online_same_but_packet(o: OnlineState, n: OnlineState) -> bool {
+    n.token == o.token && n.ack == o.ack && n.sequence == o.sequence && n.resend_queue == o.resend_queue
 }
 // the send log grew by at most one datagram of at most 1400 bytes
 spec fn sent_at_most_one(before: Seq<Seq<u8>>, after: Seq<Seq<u8>>) -> bool {
     after == before || (after.len() == before.len() + 1 && after.subrange(0, before.len() as int) == before && after.last().len() <= 1400)
+}
+
+// `after` is `before` plus zero or more datagrams of at most 1400 bytes each
+spec fn sent_extends(before: Seq<Seq<u8>>, after: Seq<Seq<u8>>) -> bool {
+    &&& after.len() >= before.len()
+    &&& after.subrange(0, before.len() as int) =~= before
+    &&& forall|i: int| before.len() <= i < after.len() ==> (#[trigger] after[i]).len() <= 1400
+}
+// same chunks (sequence number and bytes) in the same order; timers may differ
+spec fn queue_same_chunks(a: Seq<ResendChunk>, b: Seq<ResendChunk>) -> bool {
+    &&& a.len() == b.len()
+    &&& forall|i: int| 0 <= i < a.len() ==> (#[trigger] a[i]).sequence == b[i].sequence && a[i].data == b[i].data
+}
+
+proof fn lemma_sent_extends_step(s0: Seq<Seq<u8>>, mid: Seq<Seq<u8>>, after: Seq<Seq<u8>>)
+    requires sent_extends(s0, mid), sent_at_most_one(mid, after) || sent_extends(mid, after),
+    ensures sent_extends(s0, after),
+{
+    assert(after.subrange(0, s0.len() as int) =~= s0) by {
+        assert(forall|i: int| 0 <= i < s0.len() ==> after[i] == mid.subrange(0, s0.len() as int)[i]) by {
+            assert(forall|i: int| 0 <= i < mid.len() ==> after[i] == after.subrange(0, mid.len() as int)[i]);
+        }
+    }
+    assert forall|i: int| s0.len() <= i < after.len() implies (#[trigger] after[i]).len() <= 1400 by {
+        if i < mid.len() { assert(after[i] == after.subrange(0, mid.len() as int)[i]); }
+    }
 }
